@@ -840,6 +840,9 @@ structure SharedResult where
   logB : List LegEv
   okB : Bool
   logT : List LegEv
+  /-- B joined the upload and is never told anything (`Prepare` failed: neither `done` nor `err` is
+      ever published): it polls in `Wait` until its own context ends — the push does not return -/
+  hangB : Bool := false
 deriving Repr
 
 /-- both pushes: each sends its manifest iff its `uploadBlob` returned nil -/
@@ -864,6 +867,7 @@ def sharedPush (strict : Bool) (s : Shared) : SharedResult :=
     okA := aGood && ma.2,
     logB := hb ++ (if bGood then mb.1 else []),
     okB := bGood && mb.2,
-    logT := t.1 }
+    logT := t.1,
+    hangB := joined && !s.cancelB && t.2.isNone }
 
 end OllamaVerif.Registry
